@@ -1,5 +1,9 @@
-#![allow(dead_code, unused_imports, unused_macros, clippy::all)]
+#![allow(dead_code, unused_imports, unused_macros, static_mut_refs, clippy::all)]
 #[cfg(kani)]
 mod util;
 #[cfg(kani)]
 mod c09;
+#[cfg(kani)]
+mod c10;
+#[cfg(kani)]
+mod c13;
